@@ -45,14 +45,23 @@ def handle : Driver.Handler := fun op j =>
   | "spans_session_arrays" => some do
     let cols ← Driver.get? (List (List Int)) j "cols"
     let thr ← Driver.get? Nat j "thr"
-    let dt := match cols with
-      | a :: b :: _ => some (spanDtype2 thr a.length b.length)
-      | _ => none
+    -- two arrays: the two-array kernel's buffer dtype; one array (repaired): `get_spans_for_field`'s; otherwise the fold
+    -- returns the python list of `_get_spans_for_2_fields_by_spans` (no dtype). As found, ≥ 2 arrays took the kernel.
+    let dt := match cols, variantOf j with
+      | [a, b], _ => some (spanDtype2 thr a.length b.length)
+      | a :: b :: _, .asFound => some (spanDtype2 thr a.length b.length)
+      | [a], .repaired => some (spanDtypeField thr a.length)
+      | _, _ => none
     pure (spansOut dt (sessionGetSpansArrays (variantOf j) cols))
   | "spans_session_fields" => some do
     let cj ← Driver.get? (List Json) j "cols"
     let cols ← cj.mapM getColumn
-    pure (spansOut none (sessionGetSpansFields (variantOf j) cols))
+    -- a single Field (repaired): the result is that field's own `get_spans()` (an ndarray for non-indexed fields)
+    let dt := match cols, variantOf j, j.getObjValAs? Nat "thr" with
+      | [.indexed _ _], _, _ => none
+      | [c], .repaired, .ok thr => some (spanDtypeField thr (columnLen c))
+      | _, _, _ => none
+    pure (spansOut dt (sessionGetSpansFields (variantOf j) cols))
   | "spans_by_spans" => some do
     let s0 ← Driver.get? (List Nat) j "span0"
     let s1 ← Driver.get? (List Nat) j "span1"
